@@ -3,7 +3,7 @@ from engine.facts import CannotDecide, callee_is, path_matches
 from engine.prov import const_int
 from engine import cfg
 from engine.asyncs import awaits, await_of_call, base_local
-from .common import (deep_roots, Table, client_dispatch_poll, reachable_local_fns, norm_path, guarded_by_bool, guarded_by_variant, sends_cancel_id, find_calls, message_send_sites)
+from .common import (result_of, deep_roots, Table, client_dispatch_poll, reachable_local_fns, norm_path, guarded_by_bool, guarded_by_variant, sends_cancel_id, find_calls, message_send_sites)
 
 EXTRA_CONFIGS = ('default', 'tokio1', 'serde1', 'serde-transport')   # feature configurations re-analysed in the thorough tier
 META = {
@@ -140,7 +140,27 @@ def run(ctx):
         for i, s in hand:
             pred = lambda x: any(P.is_call(r, 'oneshot::Sender::is_closed') and
                                  all(rr == item and sender_field in P.fpath(pp) for rr, pp in P.root(P.args_of(r)[0])) for r, _ in P.root(x))
-            R.ob('C03.closedcheck', ('dispatch poll', 'request forwarded only if its caller still waits'), bool(guarded_by_bool(F, P, g, i, pred, False)),
+            direct_guard = bool(guarded_by_bool(F, P, g, i, pred, False))
+            if not direct_guard:
+                # two-step form: the item is first classified by a local function into a carrier enum; the hand-on site is guarded by a variant that
+                # the classifier produces only on the false edge of is_closed() of its argument's sender
+                for b2, t2 in g.calls():
+                    h = F.callee_fn(t2)
+                    if h is None or h.coroutine or not any(rr == item for a_ in t2['args'] for rr, _ in P.root(P.operand(g, a_, at=b2))):
+                        continue
+                    cterm = ('call', g.id, b2)
+                    for i2, j2, s2 in h.stmts():
+                        rv2 = s2['rv']
+                        if rv2['k'] != 'agg' or not rv2.get('variant') or (rv2.get('adt') or '').split('::')[0] in ('std', 'core'):
+                            continue
+                        v_ = rv2['variant']
+                        hp = lambda x, h=h: any(P.is_call(r, 'oneshot::Sender::is_closed') and
+                                                all(rr[0] == 'param' and rr[1] == h.id and sender_field in P.fpath(pp) for rr, pp in P.root(P.args_of(r)[0])) for r, _ in P.root(x))
+                        produced_only_when_open = all(guarded_by_bool(F, P, h, i3, hp, False) for i3, j3, s3 in h.stmts()
+                                                      if s3['rv']['k'] == 'agg' and s3['rv'].get('variant') == v_ and s3['rv'].get('adt') == rv2.get('adt'))
+                        if produced_only_when_open and guarded_by_variant(F, P, g, i, lambda x: result_of(P, x, cterm), [v_]):
+                            direct_guard = True
+            R.ob('C03.closedcheck', ('dispatch poll', 'request forwarded only if its caller still waits'), direct_guard,
                  'a dequeued request is passed on for transmission only on the false edge of is_closed() of that request\'s own completion sender', [g.loc(s)])
     R.ob('C03.closedcheck', ('dispatch poll', 'request queue polled'), len(qrecv) >= 1, 'the dispatch reads the request queue', [g.loc(t) for g, _, t in qrecv] or [poll.loc(poll.d)])
 
